@@ -185,6 +185,14 @@ Definition K02 (k : o_case) : bool :=
               (* a freshly added round (recognised by not being the carried-over head) is in shuffle order *)
               if list_eqb (list_eqb prop_eqb) (oc_surfaced o) (carried (oc_agreed o) (oc_surfaced p)) then true
               else sorted_strict (map (fun q => shuf_of k (p_wid q)) new)
+                   (* ... and truncation follows that order alone: a proposed unit that is neither surfaced, nor in
+                      the history, nor agreed was cut by the per-round cap BEHIND everything that was kept *)
+                   &&& forallb (fun q =>
+                         memN (p_wid q) (map p_wid (concat rest)) || memN (p_wid q) (map r_wid (oc_agreed o))
+                         || memN (p_wid q) (map p_wid new)
+                         || (Nat.leb (l_perround lim_of_gen) (length new)
+                             &&& forallb (fun y => shuf_of k (p_wid y) <? shuf_of k (p_wid q)) new))
+                       (flat_map o_props (vobs k))
           | _, _ => true
           end
   end.
